@@ -479,6 +479,38 @@ def oracle(chk, n, n_hankel, n_psd_mat):
             bad("posdef:phase_covariance", "covariance matrix of %d points (%s, scale %r) has smallest eigenvalue %r (C0 = %r), asymmetry %r"
                 % (len(P), kind, scale, float(lam.min()), c0, float(numpy.abs(M - M.T).max())), points=P.tolist(), r0=r0, L0=L0)
 
+    # ---- the copy the Karhunen-Loeve code actually USES: the covariance kernel of gkl_kernel holds, for every pair of radii, the
+    # azimuthal DFT of the structure function at the separations of the polar grid points; undoing that DFT gives the statistic
+    # inside the kernel, which must be the slope-covariance copy at the true separations sqrt(ri²+rj²−2 ri rj cos(2πk/nth))/2
+    # (odd and even numbers of radial elements, Kolmogorov and von Kármán)
+    for nr in (5, 6, 7, 8, 9, 11, 12):
+        for ri in (0.12, 0.45):
+            for tag, L0 in (("kolmogorov", None), ("vonKarman", float(rng.choice([0.6, 3.0, 20.0])))):
+                chk.oracle_cases += 1
+                chk.count("oracle:kl-kernel:%s" % tag)
+                chk.case(("oracle-kl-kernel", nr, ri, tag, L0))
+                with numpy.errstate(all="ignore"):
+                    rad = numpy.asarray(kl.gkl_radii(ri, nr), dtype=float)
+                    ker = numpy.asarray(kl.gkl_kernel(ri, nr, rad.copy(), tag, L0) if L0 else kl.gkl_kernel(ri, nr, rad.copy(), tag))
+                nth = ker.shape[2]
+                fnorm = 1. / 2. * (-1) / (2 * numpy.pi * (1 - ri ** 2))
+                used = numpy.fft.ifft(ker, axis=2).real / (fnorm * 2 * numpy.pi / nth)
+                th = 2 * numpy.pi * numpy.arange(nth) / nth
+                sep = 0.5 * numpy.sqrt(numpy.maximum(rad[:, None, None] ** 2 + rad[None, :, None] ** 2
+                                                     - 2 * rad[:, None, None] * rad[None, :, None] * numpy.cos(th)[None, None, :], 0))
+                # reference: the KL module's own copy at the true separations (its agreement with the slope-covariance copy — to the
+                # rounding of the published constants 6.8839 / 6.88 — is the `copies:*` clauses above), so this comparison is to rounding
+                with numpy.errstate(all="ignore"):
+                    want = numpy.asarray(kl.stf_kolmogorov(sep) if L0 is None else kl.stf_vonKarman(sep, L0), dtype=float)
+                err = float(numpy.abs(used - want).max() / numpy.abs(want).max())
+                if not err <= 1e-10:         # observed ≤ 1e-15; a wrong angle or radius gives ≥ 1e-2
+                    i, j, k = numpy.unravel_index(int(numpy.argmax(numpy.abs(used - want))), used.shape)
+                    bad("copies:kl-kernel:%s:%s-nr" % (tag, "odd" if nr % 2 else "even"),
+                        "the structure function inside gkl_kernel(ri=%r, nr=%d, %s%s) is %r for radii %r, %r at azimuth 2π·%d/%d, where "
+                        "stf_%s gives %r at that separation (max deviation %.3g of the largest value)"
+                        % (ri, nr, tag, "" if L0 is None else ", outerscale=%r" % L0, float(used[i, j, k]), float(rad[i]), float(rad[j]),
+                           k, nth, "kolmogorov" if L0 is None else "vonKarman", float(want[i, j, k]), err), ri=ri, nr=nr, L0=L0, stfunc=tag)
+
     # ---- the spectrum used to generate screens: both copies identical, r0^(-5/3), and its Hankel transform is D
     psds = psd_callables(chk)
     if len(psds) == 2:
